@@ -555,6 +555,7 @@ impl Reader {
 
     let writer_guid = GUID::new_with_prefix_and_id(mr_state.source_guid_prefix, data.writer_id);
     let writer_seq_num = data.writer_sn; // for borrow checker
+    let addressed_to_me_only = data.reader_id != EntityId::UNKNOWN;
 
     match self.data_to_dds_data(data, data_flags) {
       Ok(dds_data) => self.process_received_data(
@@ -563,6 +564,7 @@ impl Reader {
         write_options_b.build(),
         writer_guid,
         writer_seq_num,
+        addressed_to_me_only,
       ),
       Err(e) => debug!("Parsing DATA to DDSData failed: {}", e),
     }
@@ -621,6 +623,7 @@ impl Reader {
 
     // Feed to fragment assembler ...
     let writer_seq_num = datafrag.writer_sn; // for borrow checker
+    let addressed_to_me_only = datafrag.reader_id != EntityId::UNKNOWN;
     let completed_dds_data = self
       .fragment_assembler_mutable(writer_guid, datafrag.fragment_size)
       .new_datafrag(datafrag, datafrag_flags);
@@ -635,6 +638,7 @@ impl Reader {
         write_options_b.build(),
         writer_guid,
         writer_seq_num,
+        addressed_to_me_only,
       );
     } else {
       self.garbage_collect_fragments();
@@ -702,6 +706,7 @@ impl Reader {
     write_options: WriteOptions,
     writer_guid: GUID,
     writer_sn: SequenceNumber,
+    addressed_to_me_only: bool,
   ) {
     trace!(
       "handle_data_msg from {:?} seq={:?} topic={:?} reliability={:?} stateless={:?}",
@@ -751,6 +756,7 @@ impl Reader {
       write_options,
       writer_guid,
       writer_sn,
+      addressed_to_me_only,
     );
     verif_yield!("reader:after-cache-insert");
 
@@ -1204,13 +1210,18 @@ impl Reader {
     write_options: WriteOptions,
     writer_guid: GUID,
     writer_sn: SequenceNumber,
+    addressed_to_me_only: bool,
   ) {
     let cache_change = CacheChange::new(writer_guid, writer_sn, write_options, data);
 
     // Get the topic cache
     let mut tc = self.acquire_the_topic_cache_guard();
 
-    tc.add_change(&receive_timestamp, cache_change);
+    tc.add_change_addressed_to(
+      &receive_timestamp,
+      cache_change,
+      addressed_to_me_only.then_some(self.my_guid),
+    );
     // Mark seqnums as received if not behaving statelessly
     if !self.like_stateless {
       self.matched_writer(writer_guid).map(|wp| {
